@@ -26,7 +26,7 @@ PROPERTY = "C05"
 LEVEL = "model_checking"
 RULE = (
     "entry points {Catalog(cache), build_trees (binned, unbinned), HistData.from_catalog, autocorrelate, "
-    "crosscorrelate} x patches {2,3|4} x workers {2,3,T+2} x for each pool of the call every feasible completion "
+    "crosscorrelate} x patches {2,3|4; also 1 (single task) and 9 (= 4*2+1 tasks, two workers)} x workers {2,3,T+2} x for each pool of the call every feasible completion "
     "order (task t may complete at position j iff t < j+W; other pools in submission order - sound because every "
     "pool's output is part of the compared observation, see DESIGN.md E3a). Pools with <= 5 tasks: stateless "
     "enumeration of all orders; larger: explicit-state search, state = (consumed task set, hash of the consumer "
@@ -64,6 +64,15 @@ def cases(tier, seed):
                     # closed="left" with redshifts exactly on bin edges: the binning crosses the process
                     # boundary (pickled) and must mean the same on the other side
                     out.append(dict(entry=entry, npatch=npatch, W=W, focus=focus, closed="left", seed=seed))
+    # task counts at the edges of any batching of the job list: a single task (one patch, more workers than
+    # tasks) and 9 = 4*2+1 tasks with two workers
+    for entry in ENTRIES:
+        for W in (2, 3):
+            for focus in range(NPOOLS[entry]):
+                out.append(dict(entry=entry, npatch=1, W=W, focus=focus, closed="right", seed=seed))
+    for entry in ("load", "hist", "trees-binned") if tier == "quick" else ENTRIES:
+        for focus in range(NPOOLS[entry]):
+            out.append(dict(entry=entry, npatch=9, W=2, focus=focus, closed="right", seed=seed))
     # real pools, one process: every sequence of two measurements over binnings {A,B} x workers {1,2}; the second
     # result must equal the same measurement made alone and sequentially (separate-process memory is not part of
     # the virtual pool's model, so this part runs free on the real multiprocessing module)
@@ -108,8 +117,7 @@ def setup():
 def make_caches(root, npatch, seed):
     """Three catalogs (reference with z, unknown, randoms with z) with pairwise different patches."""
     mids = [0.15, 0.2, 0.35, 0.3, 0.25]  # includes values exactly on the inner edges 0.2 and 0.3
-    prime = iter([2, 3, 5, 7, 11, 13, 17, 19, 23, 29, 31, 37, 41, 43, 47, 53, 59, 61, 67, 71, 73, 79, 83, 89, 97,
-                  101, 103, 107, 109, 113, 127, 131, 137, 139, 149, 151, 157, 163, 167, 173, 179, 181, 191, 193])
+    prime = (q for q in itertools.count(2) if all(q % r for r in range(2, int(q ** 0.5) + 1)))
 
     def o(k, off, z, row=0):
         # weights are not dyadic: a sum taken in another order differs in the last bits
@@ -308,13 +316,15 @@ def run_case(case):
         first = vmp.execute(body, memo=memo)
         pools = first["pools"]
         counters["pools"] = len(pools)
-        if len(pools) != NPOOLS[entry]:
-            raise RuntimeError(f"{entry}: expected {NPOOLS[entry]} pools, saw {len(pools)}")
         if observe(first) != base:
             account(dict(executions=1, states=1, transitions=0, capped=False,
                          outcomes={observe(first): dict(count=1, trace=[], example=first)}), "submission order")
+        elif len(pools) != NPOOLS[entry]:
+            raise RuntimeError(f"{entry}: expected {NPOOLS[entry]} pools, saw {len(pools)}")
         focus = case["focus"]
-        if focus == "joint":
+        if viols:
+            pass  # already differs in submission order; the pool structure may differ from the expected one
+        elif focus == "joint":
             # all pools jointly, at most two deviations from submission order (bounded cross-check of the
             # one-pool-at-a-time argument; its execution cap is not a coverage claim)
             res = vmp.explore(body, memo=memo, bound=2, observe=observe, max_exec=1500)
